@@ -144,6 +144,9 @@ func (e *engine) classify() (victims int, mixedIndex bool) {
 	if cs.Restart {
 		o.Class("restart_after_passes")
 	}
+	if cs.PreRestart {
+		o.Class("restart_before_passes")
+	}
 	o.Class(fmt.Sprintf("retention_hours_%d", cs.H))
 	o.Count("rotated_log_segments", int64(lv+ls))
 	o.Count("rotated_metrics_segments", int64(mv+ms))
